@@ -388,6 +388,12 @@ def run_dro(spec, ctx):
                     *S.build_rsome(base['supports'][s2], B.z, hr))
             ctx.count('distractors_defined')
             events.append('support_redefined')
+        if ops.get('redefine') and base['S'] >= 2 and base['pset']['t'] != 'fixed' and \
+                hr.random() < 0.7:
+            # a preliminary, tighter probability set that the real probset() call (made right
+            # after this hook) replaces - like a redefined support
+            B.fset.probset(B.model.p == np.array(base['pset']['phat']))
+            events.append('probset_redefined')
 
     try:
         split = bool(hr.random() < 0.6)      # the same event declared in two exptset() calls
